@@ -43,6 +43,12 @@ check("C13", "fault_enumeration",
       "fault enumeration over generated encodings + property-based testing (rapid) with crash/allocation oracles",
       "DESIGN.md §4 C13")
 
+check("C05", "exploration",
+      "Generated actor trees, failure plans and scripts run on the real runtime in virtual time; the complete per-actor behaviour trace is judged by a lifecycle state machine (OnLaunch first, nothing after own OnKilled, restart = new incarnation that starts with its own OnLaunch, behaviour reset, instance per provider) and by OnLaunch accounting over all actors.",
+      "Sampling of scenarios; sequential mode is deterministic, racing mode samples Go-scheduler interleavings. Trusted: testing/synctest quiescence.",
+      "model-based property testing (rapid) of generated histories against a per-actor lifecycle state machine, in virtual time",
+      "DESIGN.md §4 C05, §3.5")
+
 NOT_YET = {}
 
 def main():
